@@ -233,9 +233,25 @@ func zzPoolBegin(p *pgxpool.Pool, ctx context.Context) (pgx.Tx, error) {
 	return &zzTx{db: zzCommitted.clone(), id: zzTxSeq}, nil
 }
 
+// zzPoolExec: a statement issued on the pool itself runs in its own
+// session and commits immediately.
 func zzPoolExec(p *pgxpool.Pool, ctx context.Context, sql string, args ...any) (pgconn.CommandTag, error) {
-	zzSQLLog = append(zzSQLLog, sql)
-	return pgconn.CommandTag{}, nil
+	if zzParseSQL(sql).kind == "set" {
+		zzSQLLog = append(zzSQLLog, sql)
+		return pgconn.CommandTag{}, nil
+	}
+	tx := &zzTx{db: zzCommitted.clone()}
+	tag, err := tx.Exec(ctx, sql, args...)
+	if err != nil {
+		return tag, err
+	}
+	zzCommitted = tx.db.clone()
+	zzCommits++
+	zzvrf.Event("AUTOCOMMIT")
+	if zzAfterCommit != nil {
+		zzAfterCommit(zzCommits)
+	}
+	return tag, nil
 }
 
 func (tx *zzTx) Begin(ctx context.Context) (pgx.Tx, error) { panic("nested tx not modelled") }
